@@ -1,14 +1,219 @@
-(** C20 — pinned statements. Nothing but statements, [exact], and assumption audits. *)
-From TU Require Import Base C12_Model C20_Model C20_Proofs.
+(** C20 — pinned statements. Nothing but statements, [exact], and assumption audits.
+    Vocabulary (C20_Model.v): [line_tokens] = tokens of one line (word parts, or
+    character n-grams built from the cluster oracle); [count_line] = the per-line
+    map of a worker; [reduce] = the reducer over the maps in arrival order;
+    [topk] = the bounded min-heap loop over an insertion order; [create] = all of
+    [Dictionary::create], with the arrival order [arr] and the heap insertion
+    order [hp] as explicit arbitrary permutations; [count_tok w toks] = number of
+    occurrences of [w] in [toks]. *)
+From TU Require Import Base C12_Model C20_Model C20_Topk C20_Counts C20_SaveLoad C20_Closest C20_Proofs C20_Check.
+From Coq Require Import Permutation Sorted QArith.
 Open Scope N_scope.
 
-(** [max_size = 0] keeps nothing, whatever the insertion order. *)
-Theorem topk_zero : forall order, topk (Some 0) order = [].
-Proof. exact topk_zero_l. Qed.
-Print Assumptions topk_zero.
+(** [.take(max_sequences)]: the model's [take_opt] is [firstn]. *)
+Theorem take_first : forall A k (l : list A), take_opt (Some k) l = firstn (N.to_nat k) l.
+Proof. exact take_opt_firstn. Qed.
+Print Assumptions take_first.
 
-(** D9: the arithmetic of the pinned code overflows for an absent [max_size]. *)
+(** counts_exact, reducer level: whatever the order in which the per-line maps of
+    the token lists [ls] arrive, the summed table has no duplicate key and maps
+    exactly the words that occur to their number of occurrences. *)
+Theorem reducer_exact : forall (ls : list (list word)) (arr : list cmap),
+  Permutation arr (map count_line ls) ->
+  NoDup (map fst (reduce arr)) /\
+  forall w, lookup w (reduce arr) = if memb w (concat ls) then Some (count_tok w (concat ls)) else None.
+Proof. exact counts_exact_l. Qed.
+Print Assumptions reducer_exact.
+
+(** counts_exact, dictionary level: every entry of the created dictionary is the
+    exact, positive number of occurrences of its key among the tokens of the
+    first [max_seq] lines; keys are distinct. *)
+Theorem counts_exact : forall chars cg max_size max_seq lines arr hp d,
+  create chars cg max_size max_seq lines arr hp = Ok d ->
+  NoDup (map fst d) /\
+  forall w f, In (w, f) d ->
+    f = count_tok w (flat_map (line_tokens chars (N.to_nat cg)) (take_opt max_seq lines)) /\ 0 < f.
+Proof.
+  intros chars cg max_size max_seq lines arr hp d H. split.
+  - exact (create_nodup _ _ _ _ _ _ _ _ H).
+  - exact (create_counts _ _ _ _ _ _ _ _ H).
+Qed.
+Print Assumptions counts_exact.
+
+(** counts_perm: two runs whose lines carry the same tokens up to permutation —
+    lines permuted, regrouped, split differently over workers, arriving in any
+    order — produce the same table (as a finite map, and up to list order). *)
+Theorem counts_perm : forall ls1 ls2 arr1 arr2,
+  Permutation arr1 (map count_line ls1) -> Permutation arr2 (map count_line ls2) ->
+  Permutation (concat ls1) (concat ls2) ->
+  Permutation (reduce arr1) (reduce arr2) /\ forall w, lookup w (reduce arr1) = lookup w (reduce arr2).
+Proof. exact counts_perm_l. Qed.
+Print Assumptions counts_perm.
+
+(** The whole of [create] is independent of the schedule: any arrival order at the
+    reducer and any iteration order of the hash map give the same result. *)
+Theorem create_schedule_free : forall chars cg max_size max_seq lines arr hp arr' hp',
+  create chars cg max_size max_seq lines arr hp = create chars cg max_size max_seq lines arr' hp'.
+Proof. exact create_schedule_free_l. Qed.
+Print Assumptions create_schedule_free.
+
+(** topk_spec: for every insertion order the heap loop keeps the same entries; they
+    are sorted; together with an omitted part they are a permutation of the
+    input; every omitted entry is below every kept one in the (freq, word)
+    order, hence not more frequent; the number kept is min(max_size, n), n when
+    max_size is absent; absent max_size keeps everything; max_size 0 keeps nothing. *)
+Theorem topk_spec : forall cap order,
+  (forall order', Permutation order order' -> topk cap order' = topk cap order)
+  /\ StronglySorted (fun a b => entry_leb a b = true) (topk cap order)
+  /\ (exists omitted, Permutation (omitted ++ topk cap order) order
+        /\ forall x y, In x omitted -> In y (topk cap order) -> entry_leb x y = true /\ fst x <= fst y)
+  /\ N.of_nat (length (topk cap order))
+     = match cap with None => N.of_nat (length order) | Some k => N.min k (N.of_nat (length order)) end
+  /\ (cap = None -> Permutation (topk cap order) order)
+  /\ (cap = Some 0 -> topk cap order = []).
+Proof. exact topk_spec_l. Qed.
+Print Assumptions topk_spec.
+
+(** The (freq, word) order is a total order (so "the max_size largest" is well defined). *)
+Theorem entry_order_total : forall a b c : entry,
+  entry_leb a a = true
+  /\ (entry_leb a b = true \/ entry_leb b a = true)
+  /\ (entry_leb a b = true -> entry_leb b a = true -> a = b)
+  /\ (entry_leb a b = true -> entry_leb b c = true -> entry_leb a c = true).
+Proof.
+  intros a b c. split; [apply entry_leb_refl|]. split; [apply entry_leb_total|].
+  split; [apply entry_leb_antisym|apply entry_leb_trans].
+Qed.
+Print Assumptions entry_order_total.
+
+(** top-k at the dictionary level: the dictionary has min(max_size, #distinct tokens)
+    entries (all when max_size is absent); a token that was left out is not more
+    frequent than any entry that was kept; with max_size absent every token is a key. *)
+Theorem create_topk : forall chars cg max_size max_seq lines arr hp d,
+  create chars cg max_size max_seq lines arr hp = Ok d ->
+  let toks := flat_map (line_tokens chars (N.to_nat cg)) (take_opt max_seq lines) in
+  N.of_nat (length d)
+    = match max_size with
+      | None => N.of_nat (length (dedup toks))
+      | Some k => N.min k (N.of_nat (length (dedup toks)))
+      end
+  /\ (forall w, In w toks -> ~ In w (map fst d) ->
+      forall w' f', In (w', f') d -> entry_leb (count_tok w toks, w) (f', w') = true /\ count_tok w toks <= f')
+  /\ (max_size = None -> forall w, In w toks -> In w (map fst d)).
+Proof.
+  intros chars cg max_size max_seq lines arr hp d H. split; [|split].
+  - exact (create_length _ _ _ _ _ _ _ _ H).
+  - exact (create_omitted _ _ _ _ _ _ _ _ H).
+  - exact (create_none_all _ _ _ _ _ _ _ _ H).
+Qed.
+Print Assumptions create_topk.
+
+(** [dedup] lists each token once (so its length is the number of distinct tokens). *)
+Theorem dedup_spec : forall l, NoDup (dedup l) /\ forall w, In w (dedup l) <-> In w l.
+Proof. intro l. split; [apply dedup_nodup|intro w; apply dedup_in]. Qed.
+Print Assumptions dedup_spec.
+
+(** D9 repaired: [create] fails only for a bad character n-gram size; it never
+    yields the overflow value, in particular not for an absent max_size. *)
+Theorem create_total : forall chars cg max_size max_seq lines arr hp,
+  create chars cg max_size max_seq lines arr hp <> Overflow
+  /\ (cfg_bad chars cg = false -> exists d, create chars cg max_size max_seq lines arr hp = Ok d)
+  /\ (cfg_bad chars cg = true -> create chars cg max_size max_seq lines arr hp = ErrCfg).
+Proof.
+  intros. split; [apply create_no_overflow_l|]. split; intro H.
+  - eexists. apply create_ok. exact H.
+  - apply create_bad. exact H.
+Qed.
+Print Assumptions create_total.
+
+(** D9 as a theorem about the arithmetic of the pinned code: [max_size + 1] with
+    [max_size = usize::MAX] overflows for every valid configuration. *)
 Theorem create_pinned_overflow : forall chars cg ms lines arr hp,
   cfg_bad chars cg = false -> create_pinned chars cg None ms lines arr hp = Overflow.
-Proof. exact create_pinned_overflow_l. Qed.
+Proof. intros chars cg ms lines arr hp H. unfold create_pinned. rewrite H. reflexivity. Qed.
 Print Assumptions create_pinned_overflow.
+
+(** freq_sum_spec: freq_sum is the total of the kept entries' exact counts, and the
+    number of all counted tokens when max_size is absent. *)
+Theorem freq_sum_spec : forall chars cg max_size max_seq lines arr hp d,
+  create chars cg max_size max_seq lines arr hp = Ok d ->
+  let toks := flat_map (line_tokens chars (N.to_nat cg)) (take_opt max_seq lines) in
+  freq_sum d = sumN (map (fun w => count_tok w toks) (map fst d))
+  /\ (max_size = None -> freq_sum d = N.of_nat (length toks)).
+Proof.
+  intros chars cg max_size max_seq lines arr hp d H. split.
+  - exact (freq_sum_counts _ _ _ _ _ _ _ _ H).
+  - exact (freq_sum_all _ _ _ _ _ _ _ _ H).
+Qed.
+Print Assumptions freq_sum_spec.
+
+(** save_load: for a dictionary (in any iteration order) with distinct keys, each
+    key [key_ok] (no TAB, no LF, not empty, not starting with a White_Space
+    character) and each frequency a usize, [load (save d)] succeeds and yields
+    the same entries (in the order of the file: by descending frequency, stable). *)
+Theorem save_load : forall order : dict,
+  NoDup (map fst order) ->
+  Forall (fun e => key_ok (fst e) = true) order ->
+  Forall (fun e => snd e <= usize_max) order ->
+  load (save order) = Some (sort_desc order) /\ Permutation (sort_desc order) order.
+Proof. intros order H1 H2 H3. apply save_load_l. split; [exact H1|split; assumption]. Qed.
+Print Assumptions save_load.
+
+(** decimal printing and parsing are inverse on usize *)
+Theorem parse_dec_roundtrip : forall n, n <= usize_max -> parse_usize (dec n) = Some n.
+Proof. exact parse_dec. Qed.
+Print Assumptions parse_dec_roundtrip.
+
+(** closest_spec: on the empty dictionary the answer is None; otherwise (for every
+    iteration order [d] of the map, every query, both measures) the answer is an
+    entry of the dictionary at minimal distance, and no entry at that minimal
+    distance is more frequent.  [kdist] = C12's [distance] (no swap, whitespace
+    substitutable) between the query's clusters and the key's clusters. *)
+Theorem closest_spec : forall norm segs q (d : dict),
+  (d = [] -> closest norm segs q d = CNone) /\
+  (d <> [] -> (forall e, In e d -> seg_of segs (fst e) <> None) ->
+   exists e, closest norm segs q d = CSome e /\ In e d /\
+     forall e', In e' d ->
+       (kdist norm segs q e <= kdist norm segs q e')%Q /\
+       ((kdist norm segs q e' == kdist norm segs q e)%Q -> snd e' <= snd e)).
+Proof. exact closest_spec_l. Qed.
+Print Assumptions closest_spec.
+
+(** the segmentation oracle can only return a segmentation of the key *)
+Theorem seg_oracle_sound : forall segs k s, seg_of segs k = Some s -> concat s = k.
+Proof. exact seg_of_concat. Qed.
+Print Assumptions seg_oracle_sound.
+
+(** The executable statement evaluated on the implementation's outputs holds of the
+    model's own output, for every input whose segmentation oracle covers the keys
+    of its dictionary file. *)
+Theorem check_run : forall v, segs_cover v = true -> check_C20 v (run_C20 v) = true.
+Proof. exact check_run_l. Qed.
+Print Assumptions check_run.
+
+(** Non-vacuity. A corpus "a b a" / "b c" (word mode), max_size 2: *)
+Example create_witness :
+  let w x : winfo := ([x], []) in
+  create false 1 (Some 2) None [[w [97]; w [98]; w [97]]; [w [98]; w [99]]] [1%nat] [2%nat; 0%nat]
+  = Ok [([97], 2); ([98], 2)].
+Proof. vm_compute. reflexivity. Qed.
+(** character 3-grams of the word "ab" *)
+Example char3_witness :
+  char_tokens 3 [([97], (true, false)); ([98], (true, false))]
+  = [[60;98;111;119;62;32;97;32;98]; [97;32;98;32;60;101;111;119;62]].
+Proof. vm_compute. reflexivity. Qed.
+(** a dictionary meeting the premises of [save_load] (keys "a b", "é"), and one that does not (" a") *)
+Example save_load_witness :
+  forallb key_ok [[97;32;98]; [195;169]] = true /\ key_ok [32;97] = false /\ key_ok [] = false
+  /\ load (save [([97;32;98], 3); ([195;169], 10)]) = Some [([195;169], 10); ([97;32;98], 3)].
+Proof. vm_compute. repeat split; reflexivity. Qed.
+(** an input meeting the premise of [check_run], with a non-trivial closest query *)
+Example check_run_witness :
+  let v := L [L [I 0; I 1; L [I 2]; L []; L [I 0; I 2]]%Z;
+              L [L [I 1%Z; L [L [L []; L [L [L [L [I 97%Z]]; L []]; L [L [L [I 98%Z]]; L []]]]]]];
+              L [L []; L []];
+              L [I 97; I 9; I 49; I 10; I 97; I 98; I 9; I 50; I 10]%Z;
+              L [L [L [I 97%Z]]; L [L [I 97%Z]; L [I 98%Z]]];
+              L [L [L []; I 0%Z; L [I 97; I 99]%Z; L [L [I 97%Z]; L [I 99%Z]]]]] in
+  segs_cover v = true /\ check_C20 v (run_C20 v) = true.
+Proof. vm_compute. split; reflexivity. Qed.
